@@ -176,7 +176,7 @@ def run(R):
     nann = 0
     nign = 0
     for fn in FT.fns:
-        if not fn.ploc.startswith("/repo/dispenso"):
+        if not fn.ploc.startswith(extract.REPO + "/dispenso"):
             continue
         evs = list(fn.events())
         ops = atomic_ops(FT, fn)
